@@ -25,6 +25,12 @@ _T2 = "trusted base: g++, rapidcheck, the reference implementation inside the ha
 REG = {
     "C01": dict(engine="progfuzz", technique="property-based testing (Hypothesis program generation, metamorphic self-comparison oracle)",
                 text="Randomised exploration of the program space: every generated binary is compared with itself in four forms and seven option sets; held on all explored cases, no proof of absence.", note=_T1),
+    "C02": dict(engine="progfuzz", technique="property-based testing (Hypothesis program generation, round-trip through ABIXML compared by abidiff in both orders + abidw --abidiff)",
+                text="Generated programs x compilers x DWARF versions x binary kinds x subsets of the information-preserving abidw options; the ABIXML must compare equal to the binary both ways; exploration only.", note=_T1),
+    "C04": dict(engine="progfuzz", technique="property-based testing (Hypothesis programs + metacharacter injection; independent expat parser and referential-integrity oracle)",
+                text="Generated programs with symbol names, SONAME and directories carrying XML metacharacters; abidw output parsed by an independent XML parser, every referenced type id defined exactly once, every referenced symbol listed, injected names recovered; exploration only.", note=_T1),
+    "C10": dict(engine="progfuzz", technique="property-based testing (Hypothesis multi-change program pairs; arithmetic invariant between parsed summary, section headers and listed entries; differential --stat)",
+                text="Generated pairs with several changes of mixed kinds (incl. versioned symbols without debug info) x report modes x generated suppressions; summary counts must equal section headers and listed entries, and --stat must print the same summary; exploration only.", note=_T1),
     "C05": dict(engine="progfuzz", technique="property-based testing (Hypothesis program pairs, model-derived expected verdict)",
                 text="Generated (P, breaking M(P)) pairs; the model knows which interfaces a mutation touches, so a silent or mis-attributed report is detected; exploration only.", note=_T1),
     "C06": dict(engine="progfuzz", technique="property-based testing (Hypothesis program pairs, expected silence both argument orders)",
